@@ -25,6 +25,17 @@ pub fn set_spin_polls(n: usize) {
     SPIN_POLLS.store(n, std::sync::atomic::Ordering::SeqCst);
 }
 
+/// What a decision beyond the schedule prefix takes: 0 = keep running the last thread while it is
+/// enabled, else the lowest id (run to block); 1 = "fair workers, consumer last": the enabled
+/// background thread that follows the last one cyclically, thread 0 (the consumer) only when nobody
+/// else is enabled -- every worker gets its turn and the channel fills before the consumer moves.
+static BASE_POLICY: std::sync::atomic::AtomicUsize = std::sync::atomic::AtomicUsize::new(0);
+
+/// Set before `run`; applies to the executions started afterwards.
+pub fn set_base_policy(p: usize) {
+    BASE_POLICY.store(p, std::sync::atomic::Ordering::SeqCst);
+}
+
 #[derive(Clone, Copy, Debug, PartialEq, Eq, Hash)]
 pub enum Parked {
     Ev(Event),
@@ -151,6 +162,7 @@ struct St {
     free_receivers: Vec<Obj>,
     spin_polls: usize,
     spun_total: u64,
+    base_policy: usize,
 }
 
 pub struct Ctl {
@@ -390,7 +402,17 @@ impl Ctl {
             self.cv.notify_all();
             return;
         }
-        let pos = if st.step < st.prefix.len() { st.prefix[st.step] } else { 0 };
+        let pos = if st.step < st.prefix.len() {
+            st.prefix[st.step]
+        } else if st.base_policy == 1 {
+            let workers: Vec<usize> = en.iter().copied().filter(|t| *t != 0).collect();
+            match workers.iter().copied().filter(|t| *t > st.last).min().or(workers.iter().copied().min()) {
+                Some(t) => en.iter().position(|x| *x == t).unwrap(),
+                None => 0,
+            }
+        } else {
+            0
+        };
         if pos >= en.len() {
             st.halt = Some(Halt::Divergence(format!("step {}: schedule asks for position {pos} but only {} threads are enabled", st.step, en.len())));
             self.cv.notify_all();
@@ -592,6 +614,7 @@ pub fn run<R: Send + 'static>(cfg: Config, body: impl FnOnce(Arc<Ctl>) -> R + Se
             free_receivers: cfg.free_receivers,
             spin_polls: SPIN_POLLS.load(std::sync::atomic::Ordering::SeqCst),
             spun_total: 0,
+            base_policy: BASE_POLICY.load(std::sync::atomic::Ordering::SeqCst),
         }),
         cv: Condvar::new(),
         state_fn: cfg.state_fn,
@@ -784,6 +807,56 @@ pub fn explore_bounded<R>(
             }
         }
         // depth-first, leftmost first
+        children.reverse();
+        stack.extend(children);
+    }
+    stats
+}
+
+/// Deviation-bounded search over a restricted set of decision points: the default schedule, and
+/// every schedule that departs from the default continuation (takes another enabled thread) at no
+/// more than `max_deviations` of the decisions for which `is_point` holds; all other decisions take
+/// the default. For configurations whose full schedule space is out of reach (many threads): the
+/// alphabet of deviations is a named kind of race instead of every preemption.
+pub fn explore_deviations<R>(
+    max_deviations: usize,
+    deadline: Option<Instant>,
+    is_point: impl Fn(&Step) -> bool,
+    mut exec: impl FnMut(&[usize]) -> Exec<R>,
+    mut check: impl FnMut(&Exec<R>, &[usize]) -> bool,
+) -> Stats {
+    let mut stats = Stats::default();
+    // (prefix, deviations used in it)
+    let mut stack: Vec<(Vec<usize>, usize)> = vec![(vec![], 0)];
+    while let Some((prefix, used)) = stack.pop() {
+        if deadline.map(|d| Instant::now() > d).unwrap_or(false) {
+            stats.stopped_early = true;
+            stats.out_of_time = true;
+            break;
+        }
+        let x = exec_retrying(&mut exec, &prefix);
+        stats.executions += 1;
+        stats.max_depth = stats.max_depth.max(x.steps.len());
+        stats.transitions += (x.steps.len() - prefix.len().min(x.steps.len())) as u64;
+        stats.max_preemptions_seen = stats.max_preemptions_seen.max(x.preemptions());
+        if !check(&x, &prefix) {
+            stats.stopped_early = true;
+            break;
+        }
+        if matches!(x.halt, Some(Halt::Divergence(_)) | Some(Halt::Timeout(_))) || used >= max_deviations {
+            continue;
+        }
+        let choices = x.choices();
+        let mut children = vec![];
+        for (i, s) in x.steps.iter().enumerate().skip(prefix.len()) {
+            if is_point(s) {
+                for alt in (0..s.n_enabled).filter(|a| *a != s.pos) {
+                    let mut p = choices[..i].to_vec();
+                    p.push(alt);
+                    children.push((p, used + 1));
+                }
+            }
+        }
         children.reverse();
         stack.extend(children);
     }
